@@ -156,6 +156,8 @@ def run(prog, rep, tier='quick'):
                         caps = itp.captured.get(g.qname, [])
                         cap = caps[-1] if caps else {}
                         res, lags = cap.get('res'), cap.get('lags')
+                        if isinstance(v, Tup) and len(v.items) == 2:
+                            res, lags = v.items          # what is actually returned (the locals may be called anything)
                         L = Aff.sym('L')
                         ok = True
                         why = []
